@@ -160,11 +160,27 @@ def normalise(tree):
                         del body[i]
                         continue
                     i += 1
+    _slice_calls_to_slices(tree)
     _sink_attribute_copies(tree)
     _split_parallel_assignments(tree)
     _raising_loops_to_any(tree)
     _self_properties_to_attributes(tree)
     return tree
+
+
+def _slice_calls_to_slices(tree):
+    """`x[slice(a, b)]` is `x[a:b]` (also with a step, and with None for an open end): one spelling for the rules."""
+    for n in ast.walk(tree):
+        if isinstance(n, ast.Subscript) and isinstance(n.slice, ast.Call) and isinstance(n.slice.func, ast.Name) and \
+                n.slice.func.id == 'slice' and not n.slice.keywords and 1 <= len(n.slice.args) <= 3 and \
+                not any(isinstance(a, ast.Starred) for a in n.slice.args):
+            a = list(n.slice.args)
+            if len(a) == 1:
+                a = [None, a[0], None]
+            elif len(a) == 2:
+                a = [a[0], a[1], None]
+            a = [None if (isinstance(x, ast.Constant) and x.value is None) else x for x in a]
+            n.slice = ast.copy_location(ast.Slice(lower=a[0], upper=a[1], step=a[2]), n.slice)
 
 
 def _raising_loops_to_any(tree):
